@@ -37,84 +37,142 @@ XS = [
 
 # ------------------------------------------------------------------------------------ observation
 class Spies:
-    """Wraps four functions of spox from outside for the duration of one build."""
+    """Wraps four functions of spox from outside for the duration of one build. Every facet is installed
+    on its own; one that cannot be installed (renamed / removed internal) is listed in `unobservable`
+    and the build proceeds unobserved for that facet. The wrappers never let their own bookkeeping
+    disturb the build."""
+
+    FACETS = (
+        ("spox._build", "Builder.compile_graph"),
+        ("spox._graph", "adapt_best_effort"),
+        ("spox._adapt", "adapt_node"),
+        ("spox._adapt", "adapt_inline"),
+    )
 
     def __init__(self):
         self.stack, self.roots = [], []
         self.abe, self.an, self.ai = [], {}, {}
+        self.unobservable: list[str] = []
+        self.installed: list = []
+
+    def _install(self, modname, path, make):
+        import importlib
+
+        try:
+            mod = importlib.import_module(modname)
+            owner = mod
+            parts = path.split(".")
+            for p_ in parts[:-1]:
+                owner = getattr(owner, p_)
+            orig = getattr(owner, parts[-1])
+            if not callable(orig):
+                raise TypeError("not callable")
+            setattr(owner, parts[-1], make(orig))
+            self.installed.append((owner, parts[-1], orig))
+        except Exception as e:  # noqa: BLE001
+            self.unobservable.append(f"{modname}.{path}: {type(e).__name__}: {e}")
 
     def __enter__(self):
-        import spox._adapt as A
-        import spox._build as B
-        import spox._graph as G
-
-        self.mods = (A, B, G)
-        self.orig = (B.Builder.compile_graph, G.adapt_best_effort, A.adapt_node, A.adapt_inline)
-        o_compile, o_abe, o_an, o_ai = self.orig
         sp = self
 
-        def compile_graph(bself, graph, scope, prefix=""):
-            rec = {"builder": bself, "graph": graph, "prefix": prefix, "children": [], "result": None}
-            parent = sp.stack[-1] if sp.stack else None
-            if parent is not None and parent["builder"] is bself:
-                parent["children"].append(rec)
-            else:
-                sp.roots.append(rec)
-            sp.stack.append(rec)
-            try:
-                rec["result"] = o_compile(bself, graph, scope, prefix)
-                return rec["result"]
-            finally:
-                sp.stack.pop()
+        def mk_compile(orig):
+            def compile_graph(bself, graph, *a, **k):
+                rec = None
+                try:
+                    prefix = k.get("prefix", a[1] if len(a) > 1 else "")
+                    rec = {"builder": bself, "graph": graph, "prefix": prefix, "children": [], "result": None}
+                    parent = sp.stack[-1] if sp.stack else None
+                    if parent is not None and parent["builder"] is bself:
+                        parent["children"].append(rec)
+                    else:
+                        sp.roots.append(rec)
+                except Exception as e:  # noqa: BLE001
+                    sp.unobservable.append(f"compile_graph arguments: {type(e).__name__}: {e}")
+                sp.stack.append(rec)
+                try:
+                    res = orig(bself, graph, *a, **k)
+                    if rec is not None:
+                        rec["result"] = res
+                    return res
+                finally:
+                    sp.stack.pop()
+            return compile_graph
 
-        def adapt_best_effort(node, protos, opsets, var_names, node_names):
-            with warnings.catch_warnings(record=True) as w:
-                warnings.simplefilter("always")
-                rec = {"node": node, "opsets": list(opsets.items()), "warned": False, "kept": None,
-                       "protos": list(protos), "result": None}
-                sp.abe.append(rec)
-                res = o_abe(node, protos, opsets, var_names, node_names)
-                rec["kept"] = res is None
-                rec["result"] = res
-                rec["warned"] = any(issubclass(x.category, RuntimeWarning) for x in w)
-            return res
+        def mk_abe(orig):
+            def adapt_best_effort(*a, **k):
+                rec = None
+                try:
+                    node, protos, opsets = a[0], a[1], a[2]
+                    rec = {"node": node, "opsets": list(opsets.items()), "warned": False, "kept": None,
+                           "protos": list(protos), "result": None}
+                    sp.abe.append(rec)
+                except Exception as e:  # noqa: BLE001
+                    rec = None
+                    sp.unobservable.append(f"adapt_best_effort arguments: {type(e).__name__}: {e}")
+                with warnings.catch_warnings(record=True) as w:
+                    warnings.simplefilter("always")
+                    res = orig(*a, **k)
+                    if rec is not None:
+                        rec["kept"] = res is None
+                        rec["result"] = res
+                        rec["warned"] = any(issubclass(x.category, RuntimeWarning) for x in w)
+                return res
+            return adapt_best_effort
 
-        def adapt_node(node, proto, s, t, names):
-            try:
-                res = o_an(node, proto, s, t, names)
-            except Exception as e:  # noqa: BLE001
-                sp.an[id(node)] = (s, t, "raise:" + type(e).__name__)
-                raise
-            sp.an[id(node)] = (s, t, "none" if res is None else "list")
-            return res
+        def mk_an(orig):
+            def adapt_node(*a, **k):
+                try:
+                    node, s, t = a[0], a[2], a[3]
+                except Exception as e:  # noqa: BLE001
+                    sp.unobservable.append(f"adapt_node arguments: {type(e).__name__}: {e}")
+                    return orig(*a, **k)
+                try:
+                    res = orig(*a, **k)
+                except Exception as e:  # noqa: BLE001
+                    sp.an[id(node)] = (s, t, "raise:" + type(e).__name__)
+                    raise
+                sp.an[id(node)] = (s, t, "none" if res is None else "list")
+                return res
+            return adapt_node
 
-        def adapt_inline(node, protos, target_opsets, var_names, node_name):
-            res = o_ai(node, protos, target_opsets, var_names, node_name)
-            sp.ai[id(node)] = res is not protos
-            return res
+        def mk_ai(orig):
+            def adapt_inline(*a, **k):
+                res = orig(*a, **k)
+                try:
+                    sp.ai[id(a[0])] = res is not a[1]
+                except Exception as e:  # noqa: BLE001
+                    sp.unobservable.append(f"adapt_inline arguments: {type(e).__name__}: {e}")
+                return res
+            return adapt_inline
 
-        B.Builder.compile_graph = compile_graph
-        G.adapt_best_effort = adapt_best_effort
-        A.adapt_node = adapt_node
-        A.adapt_inline = adapt_inline
+        for (modname, path), make in zip(self.FACETS, (mk_compile, mk_abe, mk_an, mk_ai)):
+            self._install(modname, path, make)
         return self
 
     def __exit__(self, *exc):
-        A, B, G = self.mods
-        B.Builder.compile_graph, G.adapt_best_effort, A.adapt_node, A.adapt_inline = self.orig
+        for owner, name, orig in reversed(self.installed):
+            try:
+                setattr(owner, name, orig)
+            except Exception:  # noqa: BLE001
+                pass
         return False
 
 
 def observe(prog):
-    """Realise and build the program with the real code. Returns dict(model, error, stage, spies)."""
-    from spox import build
-
+    """Realise and build the program with the real code (public API only: argument/inline/build, the
+    opset modules, to_function). If the program has `prebuild_outs`, the same Vars are first built into
+    another model with those outputs (multi-build history). Returns dict(model, error, stage, spies)."""
     out = {"model": None, "error": None, "stage": None, "spies": None}
     try:
+        from spox import build
+
         with warnings.catch_warnings():
             warnings.simplefilter("ignore")
             R = L.Realiser()
             ins, outs = R.realise(prog)
+            pre = [o for o in prog.get("prebuild_outs", []) if o in R.env]
+            if pre:
+                build(ins, {f"pre{i}": R.env[o] for i, o in enumerate(pre)})
     except Exception as e:  # noqa: BLE001
         out.update(error=e, stage="construct")
         return out
@@ -229,6 +287,10 @@ def real_class(rec, sp: Spies):
 def correspond(ck, drv, prog, obs, mismatches):
     sp = obs["spies"]
     if sp is None:
+        return
+    for u in sp.unobservable[:4]:
+        mismatches.append(("not observable", u))
+    if sp.unobservable:
         return
     if sp.roots and sp.roots[0]["result"] is None:
         return  # the build stopped inside compile_graph: no complete structure to give to the model
@@ -437,11 +499,14 @@ def classify(stage, prog, msg=""):
     if dup and "two-fresh-values" in feats:
         return "adapt:duplicate-fresh-name:>=2-converted-nodes"
     feats.discard("two-fresh-values")
-    if stage == "build-raises-ValidationError" and "Field 'shape'" in msg and feats == {"conv-unknown-rank"}:
+    body_family = {"conv-in-body-below-import", "inline-in-body-below-import", "conv-unknown-rank"}
+    # adapt_node's own checker call on a singleton model with a shape-less value info
+    if stage == "build-raises-ValidationError" and "Field 'shape'" in msg and "conv-unknown-rank" in feats \
+            and feats <= body_family:
         return "adapt:unknown-rank:build-fails"
-    if bad_attr and feats == {"conv-in-body-below-import"}:
+    if bad_attr and "conv-in-body-below-import" in feats and feats <= body_family:
         return "adapt:body-own-opsets:converted-node-in-body"
-    if bad_attr and feats == {"inline-in-body-below-import"}:
+    if bad_attr and "inline-in-body-below-import" in feats and feats <= body_family:
         return "adapt:body-own-opsets:inline-in-body"
     if bad_attr and feats == {"inline-below-14-target-14"}:
         return "adapt-inline:source-below-14:not-converted"
@@ -693,7 +758,13 @@ def check_schemas(ck, drv, info, mismatches):
 def run(ck: core.Check):
     from translator import opset_facts
 
-    info = opset_facts.generate()
+    try:
+        info = opset_facts.generate()
+        for pr in info.get("problems", []):
+            ck.broken("translator", "opset_facts", pr)
+    except Exception as e:  # noqa: BLE001
+        ck.broken("translator", "opset_facts.generate", f"{type(e).__name__}: {e}")
+        info = {"internal_min_opset": None, "shipped": [], "runs": {}, "compat": []}
     ck.cov["generated"] = {"INTERNAL_MIN_OPSET": info["internal_min_opset"], "shipped_rows": len(info["shipped"]),
                            "schema_runs": len(info["runs"]), "form_compat_pairs": len(info["compat"])}
     ck.lean(["SpoxModel.Props.C09"], audit="SpoxModel.Audit.C09")
@@ -709,8 +780,16 @@ def run(ck: core.Check):
 
     n_policy = n_sch = 0
     if drv is not None:
-        n_policy = check_policy(ck, drv, mismatches)
-        n_sch = check_schemas(ck, drv, info, mismatches)
+        for name, fn in (("policy", lambda: check_policy(ck, drv, mismatches)),
+                         ("schemas", lambda: check_schemas(ck, drv, info, mismatches))):
+            try:
+                n = fn()
+                if name == "policy":
+                    n_policy = n
+                else:
+                    n_sch = n
+            except Exception as e:  # noqa: BLE001
+                ck.broken("correspondence", f"C09 {name} not observable", f"{type(e).__name__}: {e}")
         for kind, msg in mismatches[:6]:
             ck.broken("correspondence", f"C09 {kind}", msg)
 
